@@ -376,6 +376,9 @@ def finish(prop, tier, seed, level, results, t0, rule, functions_encoded, bounds
         harness_errors.append("no obligation was discharged")
     if total.second_disagree:
         harness_errors.append("solver disagreement between z3 5.1 and z3 4.8.12")
+    crashed = [i for i in inconc if i["key"].startswith("task:") and "harness exception" in i["why"]]
+    if crashed and not new_viol:
+        harness_errors.append(f"{len(crashed)} task(s) crashed inside the harness (first: {crashed[0]['why'][:200]})")
     inconc_tasks = len({i["key"] for i in inconc})
     if agg["obligations"] and inconc_tasks > 0.2 * max(agg["obligations"], 1) and not new_viol:
         harness_errors.append(f"{inconc_tasks} inconclusive obligations exceed 20% of {agg['obligations']}")
